@@ -606,9 +606,7 @@ def shiftDiS (c : Int) (s : DiS F) : DiS F := ⟨shiftOut c s.value, s.prev.map 
 
 /-- a step function commuting with maps on states and inputs gives runs that commute -/
 theorem runE_map {S I : Type} (step : S → I → Except Panic (S × UpdRet)) (fS : S → S) (fI : I → I)
-    (hstep : ∀ s e, step (fS s) (fI e) = match step s e with
-      | .error p => .error p
-      | .ok (s', r) => .ok (fS s', r))
+    (hstep : ∀ s e, step (fS s) (fI e) = (step s e).map (fun r => (fS r.1, r.2)))
     (s : S) (evs : List I) : runE step (fS s) (evs.map fI) = (runE step s evs).map fS := by
   induction evs generalizing s with
   | nil => rfl
@@ -619,15 +617,14 @@ theorem runE_map {S I : Type} (step : S → I → Except Panic (S × UpdRet)) (f
     | ok r => cases r with | mk s' u => exact ih s'
 
 theorem integral_step_shift (chk : Bool) (c : Int) (s : DiS F) (e : Output (Quantity F)) :
-    Integral.step chk (shiftDiS c s) (shiftOut c e) = match Integral.step chk s e with
-      | .error p => .error p
-      | .ok (s', r) => .ok (shiftDiS c s', r) := by
+    Integral.step chk (shiftDiS c s) (shiftOut c e) =
+      (Integral.step chk s e).map (fun r => (shiftDiS c r.1, r.2)) := by
   match e with
   | .error x => rfl
   | .ok none => rfl
   | .ok (some d) =>
     cases hp : s.prev with
-    | none => simp [Integral.step, shiftDiS, shiftOut, hp, shiftDatum]
+    | none => simp only [Integral.step, shiftDiS, shiftOut, hp, shiftDatum, Option.map]; rfl
     | some p =>
       have ht : d.time + c - (p.time + c) = d.time - p.time := by omega
       simp only [Integral.step, shiftDiS, shiftOut, hp, shiftDatum, Option.map, ht]
@@ -644,15 +641,14 @@ theorem integral_step_shift (chk : Bool) (c : Int) (s : DiS F) (e : Output (Quan
             (Quantity.dimensionless chk c2)) real.value <;> rfl
 
 theorem derivative_step_shift (chk : Bool) (c : Int) (s : DiS F) (e : Output (Quantity F)) :
-    Derivative.step chk (shiftDiS c s) (shiftOut c e) = match Derivative.step chk s e with
-      | .error p => .error p
-      | .ok (s', r) => .ok (shiftDiS c s', r) := by
+    Derivative.step chk (shiftDiS c s) (shiftOut c e) =
+      (Derivative.step chk s e).map (fun r => (shiftDiS c r.1, r.2)) := by
   match e with
   | .error x => rfl
   | .ok none => rfl
   | .ok (some d) =>
     cases hp : s.prev with
-    | none => simp [Derivative.step, shiftDiS, shiftOut, hp, shiftDatum]
+    | none => simp only [Derivative.step, shiftDiS, shiftOut, hp, shiftDatum, Option.map]; rfl
     | some p =>
       have ht : d.time + c - (p.time + c) = d.time - p.time := by omega
       simp only [Derivative.step, shiftDiS, shiftOut, hp, shiftDatum, Option.map, ht]
@@ -686,6 +682,437 @@ theorem derivative_output_shift (chk : Bool) (c : Int) (evs : List (Output (Quan
       (runE (Derivative.step chk) Derivative.init evs).map (fun s => shiftOut c (Derivative.get s)) := by
   rw [derivative_shift_invariant]
   cases runE (Derivative.step chk) Derivative.init evs <;> rfl
+
+/-! ## E. units -/
+
+theorem constEq_iff (a b : DUnit) : DUnit.constEq a b = true ↔ a = b := by
+  cases a; cases b; simp [DUnit.constEq]
+
+theorem assertEq_true (a b : DUnit) :
+    DUnit.assertEqAssumeOk true a b = if a = b then .ok () else .error .dim := by
+  simp only [DUnit.assertEqAssumeOk, DUnit.eqAssumeTrue, if_true]
+  by_cases h : a = b
+  · simp [h, (constEq_iff b b).2 rfl]
+  · have : DUnit.constEq a b = false := by
+      cases hc : DUnit.constEq a b with
+      | false => rfl
+      | true => exact absurd ((constEq_iff _ _).1 hc) h
+    simp [h, this]
+
+theorem assertEq_false (a b : DUnit) : DUnit.assertEqAssumeOk false a b = .ok () := rfl
+
+/-- with checking on, `+` and `-` on quantities succeed exactly on equal units and keep the unit -/
+theorem qadd_true (a b : Quantity F) :
+    Quantity.add true a b = if a.unit = b.unit then .ok ⟨a.value + b.value, a.unit⟩ else .error .dim := by
+  simp only [Quantity.add, DUnit.add, assertEq_true]
+  by_cases h : a.unit = b.unit <;> simp [h]
+theorem qsub_true (a b : Quantity F) :
+    Quantity.sub true a b = if a.unit = b.unit then .ok ⟨a.value - b.value, a.unit⟩ else .error .dim := by
+  simp only [Quantity.sub, DUnit.sub, assertEq_true]
+  by_cases h : a.unit = b.unit <;> simp [h]
+/-- with checking off they never panic -/
+theorem qadd_false (a b : Quantity F) : Quantity.add false a b = .ok ⟨a.value + b.value, a.unit⟩ := rfl
+theorem qsub_false (a b : Quantity F) : Quantity.sub false a b = .ok ⟨a.value - b.value, a.unit⟩ := rfl
+/-- the only panic of quantity arithmetic is the dimension assertion -/
+theorem qadd_panic_dim (chk : Bool) (a b : Quantity F) (p : Panic) (h : Quantity.add chk a b = .error p) :
+    p = .dim := by
+  cases chk with
+  | false => rw [qadd_false] at h; cases h
+  | true => rw [qadd_true] at h; split at h <;> cases h; rfl
+theorem qsub_panic_dim (chk : Bool) (a b : Quantity F) (p : Panic) (h : Quantity.sub chk a b = .error p) :
+    p = .dim := by
+  cases chk with
+  | false => rw [qsub_false] at h; cases h
+  | true => rw [qsub_true] at h; split at h <;> cases h; rfl
+/-- values computed by `+`/`-` do not depend on the checking mode -/
+theorem qadd_value (chk : Bool) (a b r : Quantity F) (h : Quantity.add chk a b = .ok r) :
+    r.value = a.value + b.value := by
+  cases chk with
+  | false => rw [qadd_false] at h; cases h; rfl
+  | true => rw [qadd_true] at h; split at h <;> cases h; rfl
+theorem qsub_value (chk : Bool) (a b r : Quantity F) (h : Quantity.sub chk a b = .ok r) :
+    r.value = a.value - b.value := by
+  cases chk with
+  | false => rw [qsub_false] at h; cases h; rfl
+  | true => rw [qsub_true] at h; split at h <;> cases h; rfl
+
+/-- one trapezoid of two samples of unit `u` has unit `u·s` -/
+theorem trapAddend_unit (u : DUnit) (p o : Datum (Quantity F)) (hp : p.value.unit = u) (ho : o.value.unit = u) :
+    ∃ a, trapAddend true p o = .ok a ∧ a.unit = ⟨u.mm, u.s + 1⟩ := by
+  simp only [trapAddend, qadd_true, hp, ho, if_true]
+  refine ⟨_, rfl, ?_⟩
+  simp only [Quantity.div, Quantity.mul, Quantity.ofTime, Quantity.dimensionless, DUnit.div, DUnit.mul, SECOND,
+    DIMENSIONLESS, DUnit.new, if_true, DUnit.mk.injEq]
+  omega
+
+theorem trapRev_unit (u : DUnit) (rr : List (Datum (Quantity F))) (hall : ∀ d ∈ rr, d.value.unit = u) :
+    ∃ r, trapRev true rr = .ok r ∧ ∀ d, r = some d → d.value.unit = ⟨u.mm, u.s + 1⟩ := by
+  induction rr with
+  | nil => exact ⟨none, rfl, by simp⟩
+  | cons o tl ih =>
+    cases tl with
+    | nil => exact ⟨none, rfl, by simp⟩
+    | cons p rest =>
+      obtain ⟨r0, h0, hu0⟩ := ih (fun d hd => hall d (List.mem_cons_of_mem _ hd))
+      obtain ⟨a, ha, hau⟩ := trapAddend_unit u p o (hall p (by simp)) (hall o (by simp))
+      rw [trapRev, h0]
+      simp only [ha]
+      cases r0 with
+      | none => exact ⟨_, rfl, by intro d hd; cases hd; exact hau⟩
+      | some r =>
+        have hr := hu0 r rfl
+        simp only [qadd_true, hau, hr, if_true]
+        exact ⟨_, rfl, by intro d hd; cases hd; rfl⟩
+
+theorem trapRev_nochk_ok (rr : List (Datum (Quantity F))) : ∃ r, trapRev false rr = .ok r := by
+  induction rr with
+  | nil => exact ⟨none, rfl⟩
+  | cons o tl ih =>
+    cases tl with
+    | nil => exact ⟨none, rfl⟩
+    | cons p rest =>
+      obtain ⟨r0, h0⟩ := ih
+      rw [trapRev, h0]
+      simp only [trapAddend, qadd_false]
+      cases r0 with
+      | none => exact ⟨_, rfl⟩
+      | some r => exact ⟨_, rfl⟩
+
+/-- all present samples of a history have unit `u` -/
+def AllUnit (u : DUnit) (evs : List (Output (Quantity F))) : Prop :=
+  ∀ d : Datum (Quantity F), (.ok (some d) : Output (Quantity F)) ∈ evs → d.value.unit = u
+
+/-- **Integral never panics on uniformly dimensioned input** (checking on) -/
+theorem integral_same_unit_never_panics (u : DUnit) (evs : List (Output (Quantity F))) (hu : AllUnit u evs) :
+    ∃ s, runE (Integral.step true) Integral.init evs = .ok s := by
+  cases h : runE (Integral.step true) Integral.init evs with
+  | ok s => exact ⟨s, rfl⟩
+  | error p =>
+    exfalso
+    obtain ⟨pre, hpre, q, hq⟩ := (integral_panics_iff true evs).1 ⟨p, h⟩
+    obtain ⟨r, hr, _⟩ := trapRev_unit u (rrun pre) (fun d hd => hu d (hpre.subset (mem_rrun pre d hd)))
+    simp only [trapSpec, lastRun, List.reverse_reverse] at hq
+    rw [hr] at hq; cases hq
+
+/-- … nor at all when checking is off -/
+theorem integral_nochk_never_panics (evs : List (Output (Quantity F))) :
+    ∃ s, runE (Integral.step false) Integral.init evs = .ok s := by
+  cases h : runE (Integral.step false) Integral.init evs with
+  | ok s => exact ⟨s, rfl⟩
+  | error p =>
+    exfalso
+    obtain ⟨pre, hpre, q, hq⟩ := (integral_panics_iff false evs).1 ⟨p, h⟩
+    obtain ⟨r, hr⟩ := trapRev_nochk_ok (F := F) (rrun pre)
+    simp only [trapSpec, lastRun, List.reverse_reverse] at hq
+    rw [hr] at hq; cases hq
+
+/-- **Integral output unit** = input unit × second -/
+theorem integral_output_unit (u : DUnit) (evs : List (Output (Quantity F))) (hu : AllUnit u evs) (s : DiS F)
+    (h : runE (Integral.step true) Integral.init evs = .ok s) (d : Datum (Quantity F))
+    (hg : Integral.get s = .ok (some d)) : d.value.unit = ⟨u.mm, u.s + 1⟩ := by
+  obtain ⟨r, hr, hget⟩ := integral_eq_trapsum true evs s h
+  obtain ⟨r', hr', hunit⟩ := trapRev_unit u (rrun evs) (fun d hd => hu d (mem_rrun evs d hd))
+  simp only [trapSpec, lastRun, List.reverse_reverse] at hr
+  rw [hr'] at hr; cases hr
+  rw [hg] at hget
+  unfold expectedGet at hget
+  split at hget
+  · cases hget
+  · cases hget
+  · cases hget
+  · cases hget; exact hunit d rfl
+
+/-- two consecutive present samples of different units: the step panics with the dimension assertion -/
+theorem integral_unit_mismatch_panics (s : DiS F) (p o : Datum (Quantity F)) (hp : s.prev = some p)
+    (hne : p.value.unit ≠ o.value.unit) : Integral.step true s (.ok (some o)) = .error .dim := by
+  simp only [Integral.step, hp, qadd_true, hne, if_false]
+
+/-- the integral stream's only panic is the dimension assertion -/
+theorem integral_panic_is_dim (chk : Bool) (s : DiS F) (e : Output (Quantity F)) (p : Panic)
+    (h : Integral.step chk s e = .error p) : p = .dim := by
+  match e with
+  | .error x => cases h
+  | .ok none => cases h
+  | .ok (some d) =>
+    simp only [Integral.step] at h
+    split at h
+    · cases h
+    · split at h
+      · next e he => cases h; exact qadd_panic_dim _ _ _ _ he
+      · split at h
+        · split at h
+          · next e he => cases h; exact qadd_panic_dim _ _ _ _ he
+          · cases h
+        · cases h
+
+/-! derivative -/
+theorem backdiffRev_unit (u : DUnit) (rr : List (Datum (Quantity F))) (hall : ∀ d ∈ rr, d.value.unit = u) :
+    ∃ r, backdiffRev true rr = .ok r ∧ ∀ d, r = some d → d.value.unit = ⟨u.mm, u.s - 1⟩ := by
+  match rr with
+  | [] => exact ⟨none, rfl, by simp⟩
+  | [_] => exact ⟨none, rfl, by simp⟩
+  | o :: p :: rest =>
+    have ho := hall o (by simp)
+    have hp := hall p (by simp)
+    simp only [backdiffRev, qsub_true, ho, hp, if_true]
+    refine ⟨_, rfl, ?_⟩
+    intro d hd; cases hd
+    simp only [Quantity.div, Quantity.ofTime, DUnit.div, SECOND, DUnit.new, if_true, DUnit.mk.injEq]
+    exact ⟨by omega, trivial⟩
+
+theorem backdiffRev_nochk_ok (rr : List (Datum (Quantity F))) : ∃ r, backdiffRev false rr = .ok r := by
+  match rr with
+  | [] => exact ⟨none, rfl⟩
+  | [_] => exact ⟨none, rfl⟩
+  | o :: p :: rest => exact ⟨_, rfl⟩
+
+theorem derivative_same_unit_never_panics (u : DUnit) (evs : List (Output (Quantity F))) (hu : AllUnit u evs) :
+    ∃ s, runE (Derivative.step true) Derivative.init evs = .ok s := by
+  cases h : runE (Derivative.step true) Derivative.init evs with
+  | ok s => exact ⟨s, rfl⟩
+  | error p =>
+    exfalso
+    obtain ⟨pre, hpre, q, hq⟩ := (derivative_panics_iff true evs).1 ⟨p, h⟩
+    obtain ⟨r, hr, _⟩ := backdiffRev_unit u (rrun pre) (fun d hd => hu d (hpre.subset (mem_rrun pre d hd)))
+    simp only [backdiffSpec, lastRun, List.reverse_reverse] at hq
+    rw [hr] at hq; cases hq
+
+theorem derivative_nochk_never_panics (evs : List (Output (Quantity F))) :
+    ∃ s, runE (Derivative.step false) Derivative.init evs = .ok s := by
+  cases h : runE (Derivative.step false) Derivative.init evs with
+  | ok s => exact ⟨s, rfl⟩
+  | error p =>
+    exfalso
+    obtain ⟨pre, hpre, q, hq⟩ := (derivative_panics_iff false evs).1 ⟨p, h⟩
+    obtain ⟨r, hr⟩ := backdiffRev_nochk_ok (F := F) (rrun pre)
+    simp only [backdiffSpec, lastRun, List.reverse_reverse] at hq
+    rw [hr] at hq; cases hq
+
+/-- **Derivative output unit** = input unit / second -/
+theorem derivative_output_unit (u : DUnit) (evs : List (Output (Quantity F))) (hu : AllUnit u evs) (s : DiS F)
+    (h : runE (Derivative.step true) Derivative.init evs = .ok s) (d : Datum (Quantity F))
+    (hg : Derivative.get s = .ok (some d)) : d.value.unit = ⟨u.mm, u.s - 1⟩ := by
+  obtain ⟨r, hr, hget⟩ := derivative_eq_backdiff true evs s h
+  obtain ⟨r', hr', hunit⟩ := backdiffRev_unit u (rrun evs) (fun d hd => hu d (mem_rrun evs d hd))
+  simp only [backdiffSpec, lastRun, List.reverse_reverse] at hr
+  rw [hr'] at hr; cases hr
+  rw [hg] at hget
+  unfold expectedGet at hget
+  split at hget
+  · cases hget
+  · cases hget
+  · cases hget
+  · cases hget; exact hunit d rfl
+
+theorem derivative_unit_mismatch_panics (s : DiS F) (p o : Datum (Quantity F)) (hp : s.prev = some p)
+    (hne : o.value.unit ≠ p.value.unit) : Derivative.step true s (.ok (some o)) = .error .dim := by
+  simp only [Derivative.step, hp, qsub_true, hne, if_false]
+
+theorem derivative_panic_is_dim (chk : Bool) (s : DiS F) (e : Output (Quantity F)) (p : Panic)
+    (h : Derivative.step chk s e = .error p) : p = .dim := by
+  match e with
+  | .error x => cases h
+  | .ok none => cases h
+  | .ok (some d) =>
+    simp only [Derivative.step] at h
+    split at h
+    · cases h
+    · split at h
+      · next e he => cases h; exact qsub_panic_dim _ _ _ _ he
+      · cases h
+
+/-! ## D. to-state converters -/
+
+/-- what a to-state converter reports: time and the three quantities handed to `State::new` -/
+structure StateSpec (F : Type) where
+  time : Int
+  pos : Quantity F
+  vel : Quantity F
+  acc : Quantity F
+
+/-- the converter's `get` from a specification value: absent, or `State::new(pos, vel, acc)` (with its three unit
+assertions) stamped with the time -/
+def stateOut (chk : Bool) : Option (StateSpec F) → Except Panic (Output (State F))
+  | none => .ok (.ok none)
+  | some sp =>
+    match State.new chk sp.pos sp.vel sp.acc with
+    | .error e => .error e
+    | .ok st => .ok (.ok (some ⟨sp.time, st⟩))
+
+/-- running trapezoid sum as the converters write it, on a run given newest-first: nothing for fewer than two
+samples; `h(p,o) = ((p + o) / 2) * ofTime(o.time − p.time)` (`qHalfTimes`) for two; `old + h(p,o)` after that
+(the old sum is the *left* operand) -/
+def trapRunRev (chk : Bool) : List (Datum (Quantity F)) → Except Panic (Option (Quantity F))
+  | [] => .ok none
+  | [_] => .ok none
+  | o :: p :: rest =>
+    match trapRunRev chk (p :: rest) with
+    | .error e => .error e
+    | .ok prev =>
+      match qHalfTimes chk p.value o.value (Quantity.ofTime chk (o.time - p.time)) with
+      | .error e => .error e
+      | .ok h =>
+        match prev with
+        | none => .ok (some h)
+        | some v =>
+          match Quantity.add chk v h with
+          | .error e => .error e
+          | .ok nv => .ok (some nv)
+
+/-! ### AccelerationToState -/
+/-- position for the acceleration converter: the trapezoid sum of the velocities `velᵢ = trapRun(d₀…dᵢ)`:
+nothing for fewer than three samples, `((vel₁ + vel₂)/2)·dt₂` for three, `old + ((velᵢ₋₁ + velᵢ)/2)·dtᵢ` after. -/
+def a2sPosRev (chk : Bool) : List (Datum (Quantity F)) → Except Panic (Option (Quantity F))
+  | [] => .ok none
+  | [_] => .ok none
+  | o :: p :: rest =>
+    match a2sPosRev chk (p :: rest) with
+    | .error e => .error e
+    | .ok prevPos =>
+      match trapRunRev chk (p :: rest) with
+      | .error e => .error e
+      | .ok none => .ok none
+      | .ok (some v0) =>
+        match trapRunRev chk (o :: p :: rest) with
+        | .error e => .error e
+        | .ok none => .ok none
+        | .ok (some v1) =>
+          match qHalfTimes chk v0 v1 (Quantity.ofTime chk (o.time - p.time)) with
+          | .error e => .error e
+          | .ok h =>
+            match prevPos with
+            | none => .ok (some h)
+            | some x =>
+              match Quantity.add chk x h with
+              | .error e => .error e
+              | .ok np => .ok (some np)
+
+def a2sSpecRev (chk : Bool) : List (Datum (Quantity F)) → Except Panic (Option (StateSpec F))
+  | [] => .ok none
+  | o :: rest =>
+    match trapRunRev chk (o :: rest) with
+    | .error e => .error e
+    | .ok vel =>
+      match a2sPosRev chk (o :: rest) with
+      | .error e => .error e
+      | .ok pos =>
+        match vel, pos with
+        | some v, some x => .ok (some ⟨o.time, x, v, o.value⟩)
+        | _, _ => .ok none
+
+/-- NON-incremental specification of `AccelerationToState` on the run `d₀ … dₙ` of present samples since the last
+error: acceleration = the newest sample, velocity = running trapezoid sum of the accelerations, position = running
+trapezoid sum of those velocities; absent until both exist; time of the newest sample -/
+def a2sSpec (chk : Bool) (run : List (Datum (Quantity F))) : Except Panic (Option (StateSpec F)) :=
+  a2sSpecRev chk run.reverse
+
+/-- state invariant w.r.t. the newest-first run -/
+def A2sInv (chk : Bool) (s : Option (A2sU0 F)) : List (Datum (Quantity F)) → Prop
+  | [] => s = none
+  | o :: rest => ∃ vel pos, trapRunRev chk (o :: rest) = .ok vel ∧ a2sPosRev chk (o :: rest) = .ok pos ∧
+      s = some ⟨o.time, o.value, vel.map (fun v => ⟨v, pos⟩)⟩
+
+theorem a2s_step_inv (chk : Bool) (s s' : Option (A2sU0 F)) (rr : List (Datum (Quantity F)))
+    (d : Datum (Quantity F)) (r : UpdRet) (hinv : A2sInv chk s rr)
+    (h : A2s.step chk s (.ok (some d)) = .ok (s', r)) : A2sInv chk s' (d :: rr) := by
+  simp only [A2s.step] at h
+  cases ha : DUnit.assertEqAssumeOk chk d.value.unit (MILLIMETER_PER_SECOND_SQUARED chk) with
+  | error e => rw [ha] at h; cases h
+  | ok _ =>
+    rw [ha] at h; simp only at h
+    match rr, hinv with
+    | [], hinv =>
+      simp only [A2sInv] at hinv; subst hinv
+      simp only [Except.ok.injEq, Prod.mk.injEq] at h
+      exact ⟨none, none, rfl, rfl, h.1.symm⟩
+    | p :: rest, hinv =>
+      obtain ⟨vel, pos, hv, hp, hs⟩ := hinv
+      subst hs
+      simp only at h
+      cases hq : qHalfTimes chk p.value d.value (Quantity.ofTime chk (d.time - p.time)) with
+      | error e => rw [hq] at h; cases h
+      | ok velAddend =>
+        rw [hq] at h; simp only at h
+        cases vel with
+        | none =>
+          simp only [Option.map, Except.ok.injEq, Prod.mk.injEq] at h
+          refine ⟨some velAddend, none, ?_, ?_, h.1.symm⟩
+          · rw [trapRunRev, hv]; simp only [hq]
+          · rw [a2sPosRev, hp]; simp only [hv]
+        | some v =>
+          simp only [Option.map] at h
+          cases hadd : Quantity.add chk v velAddend with
+          | error e => rw [hadd] at h; cases h
+          | ok newVel =>
+            rw [hadd] at h; simp only at h
+            have hv' : trapRunRev chk (d :: p :: rest) = .ok (some newVel) := by
+              rw [trapRunRev, hv]; simp only [hq, hadd]
+            cases hq2 : qHalfTimes chk v newVel (Quantity.ofTime chk (d.time - p.time)) with
+            | error e => rw [hq2] at h; cases h
+            | ok posAddend =>
+              rw [hq2] at h; simp only at h
+              cases pos with
+              | none =>
+                simp only [Except.ok.injEq, Prod.mk.injEq] at h
+                refine ⟨some newVel, some posAddend, hv', ?_, h.1.symm⟩
+                rw [a2sPosRev, hp]; simp only [hv, hv', hq2]
+              | some oldPos =>
+                simp only at h
+                cases hadd2 : Quantity.add chk oldPos posAddend with
+                | error e => rw [hadd2] at h; cases h
+                | ok np =>
+                  rw [hadd2] at h
+                  simp only [Except.ok.injEq, Prod.mk.injEq] at h
+                  refine ⟨some newVel, some np, hv', ?_, h.1.symm⟩
+                  rw [a2sPosRev, hp]; simp only [hv, hv', hq2, hadd2]
+
+theorem a2s_run_inv (chk : Bool) (evs : List (Output (Quantity F))) (s : Option (A2sU0 F))
+    (h : runE (A2s.step chk) A2s.init evs = .ok s) : A2sInv chk s (rrunIgn evs) := by
+  induction evs using snoc_induction generalizing s with
+  | nil => simp only [runE, Except.ok.injEq] at h; subst h; rfl
+  | snoc l e ih =>
+    cases hl : runE (A2s.step chk) A2s.init l with
+    | error p => rw [runE_snoc_error _ _ _ _ _ hl] at h; cases h
+    | ok s0 =>
+      rw [runE_snoc_ok _ _ _ _ _ hl] at h
+      have ih' := ih s0 hl
+      match e with
+      | .error x =>
+        simp only [A2s.step, Except.ok.injEq] at h; subst h
+        simp [A2sInv]
+      | .ok none =>
+        simp only [A2s.step, Except.ok.injEq] at h; subst h
+        simpa using ih'
+      | .ok (some d) =>
+        cases hst : A2s.step chk s0 (.ok (some d)) with
+        | error p => rw [hst] at h; cases h
+        | ok sr =>
+          cases sr with
+          | mk s1 r =>
+            rw [hst] at h; simp only [Except.ok.injEq] at h; subst h
+            rw [rrunIgn_snoc_present]
+            exact a2s_step_inv chk s0 s1 _ d r ih' hst
+
+/-- **AccelerationToState = its specification.**  After any history that did not panic, `get` is the converter
+output (`State::new` + time) of the specification applied to the present samples since the last error event
+(absent events ignored).  In particular right after an error event `get` is absent, not the error. -/
+theorem a2s_eq_spec (chk : Bool) (evs : List (Output (Quantity F))) (s : Option (A2sU0 F))
+    (h : runE (A2s.step chk) A2s.init evs = .ok s) :
+    ∃ r, a2sSpec chk (lastRunIgnoringAbsent evs) = .ok r ∧ A2s.get chk s = stateOut chk r := by
+  have hinv := a2s_run_inv chk evs s h
+  simp only [a2sSpec, lastRunIgnoringAbsent, List.reverse_reverse]
+  match hrr : rrunIgn evs, hinv with
+  | [], hinv => simp only [A2sInv] at hinv; subst hinv; exact ⟨none, rfl, rfl⟩
+  | o :: rest, hinv =>
+    obtain ⟨vel, pos, hv, hp, hs⟩ := hinv
+    subst hs
+    simp only [a2sSpecRev, hv, hp]
+    cases vel with
+    | none => exact ⟨none, rfl, rfl⟩
+    | some v =>
+      cases pos with
+      | none => exact ⟨none, rfl, rfl⟩
+      | some x => exact ⟨_, rfl, rfl⟩
 
 end S
 
